@@ -109,6 +109,9 @@ func (o *OracleC05) After(x *Exec, op *Op, res *Res) {
 	// ---- enter: a funded account delegates 1 unit and a large amount of every asset to every validator
 	for _, dn := range s.AssetOrder {
 		for vi, va := range w.Vals {
+			if s.Vals[vi].Status == 0 {
+				continue // not an existing validator (removed by x/staking)
+			}
 			for _, amt := range []string{"1", "1000000000000000000"} {
 				ok, msg := o.try(x, func(ctx sdk.Context) error {
 					_, err := w.MsgSrv.Delegate(ctx, alliancetypes.NewMsgDelegate(w.Probe.String(), va.String(), sdk.NewCoin(dn, parseInt(amt))))
@@ -130,6 +133,27 @@ func (o *OracleC05) After(x *Exec, op *Op, res *Res) {
 			continue
 		}
 		if _, ok := s.Assets[d.Denom]; !ok {
+			continue
+		}
+		if x.Orphaned(d.V, d.Denom) {
+			// listed finding F-C05d: the position's validator was removed by x/staking while the
+			// position existed; the module deleted the validator's share record, the delegator can
+			// neither query, claim nor undelegate (also not after the validator is created again)
+			ok, _ := o.try(x, func(ctx sdk.Context) error {
+				r, err := w.Query.AllianceDelegation(ctx, &alliancetypes.QueryAllianceDelegationRequest{DelegatorAddr: d.Del, ValidatorAddr: d.Val, Denom: d.Denom})
+				if err != nil {
+					return err
+				}
+				if !r.Delegation.Balance.Amount.IsPositive() {
+					return fmt.Errorf("nothing reported")
+				}
+				_, err = w.MsgSrv.Undelegate(ctx, alliancetypes.NewMsgUndelegate(d.Del, d.Val, r.Delegation.Balance))
+				return err
+			})
+			if !ok {
+				x.KnownFinding("F-C05d")
+				x.Label("c05:position-orphaned-by-validator-removal")
+			}
 			continue
 		}
 		qc, _ := x.Ctx.CacheContext()
